@@ -6,19 +6,34 @@ import vlib, dlvlib, rrlib, scripts as S
 hx = rrlib.hx
 
 RR_OPS = ["send", "sendbig", "join", "break"]
+RR_OPS_ID = ["send", "join", "rejoin", "cancel", "break"]     # histories with identity reuse and abandoned sends
 ROUTER_OPS = ["joinA", "joinI", "joinE", "peer_says", "recv", "to_first", "to_last", "to_unknown", "depart_first", "rejoin_first", "rejoin_live"]
 
 
-def rr_script(seq, stype, scen):
+def rr_script(seq, stype, scen, idents=False):
     ops, n, nsend = [], 0, 0
     ptype = S.PEER_OF[stype][0]
     live = []
+    name = {}
     for o in seq:
         if o == "join":
-            if n < 4:
-                n += 1; ops.append({"op": "attach", "c": n, "ptype": ptype}); live.append(n)
+            if n < 5:
+                n += 1; name[n] = "peer-%d" % n
+                ops.append(dict({"op": "attach", "c": n, "ptype": ptype}, **({"ident": hx(name[n])} if idents else {}))); live.append(n)
                 if n % 2 == 0:
                     ops.append({"op": "maxw", "c": n, "k": 257})     # this peer's transport accepts 257 bytes per write
+        elif o == "rejoin":
+            # a new connection announces the identity of the oldest live peer, whose old connection stays open (half-open): it supersedes it
+            if live and n < 6:
+                old = live.pop(0); n += 1; name[n] = name[old]
+                ops.append({"op": "attach", "c": n, "ptype": ptype, "ident": hx(name[n])}); live.append(n)
+        elif o == "cancel":
+            # the application gives up on a send that waits on back-pressure (whichever peer's turn it is), before a byte was written
+            if live and stype != "REQ":
+                nsend += 1
+                ops += [{"op": "credit", "c": c, "k": 0} for c in live]
+                ops += [{"op": "send", "m": [hx("abandoned%d" % nsend)]}, {"op": "call_poll"}, {"op": "call_drop"}]
+                ops += [{"op": "credit", "c": c} for c in live]
         elif o == "break":
             if live:
                 c = live.pop(0)
